@@ -95,6 +95,26 @@ func c12accept(p *Prog, r *Report) {
 		r.Check(ok1, rule, "fastForward:"+labels[i]+":CheckBlock==nil", p.ipos(a), fnName(fn), "guarded by CheckBlock==nil", labels[i]+" reachable without a successful CheckBlock(block, …)")
 		r.Check(ok2, rule, "fastForward:"+labels[i]+":frameHash==block.FrameHash", p.ipos(a), fnName(fn), "guarded by frame-hash equality", labels[i]+" reachable without frame.Hash()==block.FrameHash()")
 	}
+	// nil means adopted: Node.fastForward reads a nil result as "verified and adopted" (it then restores the application
+	// from the response's snapshot and applies its receipts). Every success return of core.fastForward is reached only
+	// after both checks passed and after the hashgraph was reset from the response.
+	resets := callsIn(fn, named(HG+".Hashgraph.Reset"))
+	for i, rp := range p.succRets(fn, errNil, 0) {
+		g1, _ := p.holdsAtRet(rp, []Pred{qCheck}, all(1))
+		g2, _ := p.holdsAtRet(rp, []Pred{qFrame}, all(1))
+		at := ssa.Instruction(rp.ret)
+		if rp.pred != nil && len(rp.pred.Instrs) > 0 {
+			at = rp.pred.Instrs[len(rp.pred.Instrs)-1]
+		}
+		dom := false
+		for _, c := range resets {
+			if dominates(c, at) {
+				dom = true
+			}
+		}
+		r.Check(g1 && g2 && dom, rule, fmt.Sprintf("fastForward:return-nil#%d:verified-and-adopted", i), p.ipos(rp.ret), fnName(fn), "nil is returned only after CheckBlock==nil, frame-hash equality and hg.Reset",
+			fmt.Sprintf("core.fastForward can return nil without CheckBlock==nil (%v), without the frame-hash comparison (%v) or without having reset the hashgraph from the response (%v): Node.fastForward takes nil for 'verified and adopted', restores the application from the unverified snapshot and applies the unverified block's receipts", g1, g2, dom))
+	}
 	// peer-set hash: a set derived from frame.Peers is hashed against block.PeersHash
 	okPH := false
 	where := "-"
